@@ -230,7 +230,7 @@ Proof.
     change (slen s2) with (slen s). lia. }
   cbn [c_init c_ids c_off] in Hw, Hfr.
   exists s'. split.
-  - unfold update_entry, with_dir_entry_mut.
+  - unfold update_entry, with_dir_entry_mut, with_dir_entry_mut_inner.
     rewrite (bind_exec _ _ _ _ _ (dir_entry_exec s id e He)).
     rewrite (bind_exec _ _ _ _ _ (set_dir_entry_exec s id e e' He)).
     fold e'. fold s2. unfold write_dir_entry. rewrite bind_get.
@@ -420,6 +420,7 @@ Proof. reflexivity. Qed.
 Lemma write_data_big_no_alloc : forall s id V ids off buf,
   big_content s id V -> stream_ids s id ids -> StoreWf s ->
   off <= lenN V -> off + lenN buf <= slen s * lenN ids ->
+  N.max (lenN V) (off + lenN buf) <= N.min (MAX_REGULAR_SECTOR * slen s) (stream_len_mask (ver s)) ->
   exists s',
     write_data id off buf s = (s', Ok tt) /\
     big_content s' id (spliceN V off buf) /\
@@ -427,10 +428,10 @@ Lemma write_data_big_no_alloc : forall s id V ids off buf,
     (forall id' V' ids', id' <> id -> big_content s id' V' -> stream_ids s id' ids' ->
        disjoint ids ids' -> big_content s' id' V' /\ stream_ids s' id' ids').
 Proof.
-  intros s id V ids off buf HB (e0 & He0 & _ & Hc0) Hwf Hoff Hfit.
+  intros s id V ids off buf HB (e0 & He0 & _ & Hc0) Hwf Hoff Hfit Hbounds.
   pose proof HB as (e & ids' & He & Ht & Hcut & Hc & Hg & Hle & HV).
   rewrite He in He0. injection He0 as <-. rewrite Hc in Hc0. injection Hc0 as ->.
-  pose proof (big_content_len _ _ _ _ HB He) as HlV. rewrite HlV in Hoff.
+  pose proof (big_content_len _ _ _ _ HB He) as HlV. rewrite HlV in Hoff, Hbounds.
   pose proof (good_chain_len _ _ Hg) as HCL.
   destruct (chain_ids_head _ _ _ Hc (ids_nonempty s ids _ Hcut Hle)) as (Hst & t & Eids).
   set (new_len := N.max (d_len e) (off + lenN buf)).
@@ -450,7 +451,11 @@ Proof.
     rewrite (bind_exec _ _ _ _ _ (stream_entry_exec s id e He Ht)).
     cbv beta iota zeta.
     destruct (d_len e <? off) eqn:E1; [lia|]. rewrite bind_ret.
-    fold new_len.
+    fold new_len. fold new_len in Hbounds.
+    rewrite (bind_exec _ _ _ _ _ (eq_refl : get s = (s, Ok s))). cbv beta iota zeta.
+    replace (N.min (MAX_REGULAR_SECTOR * slen s) (stream_len_mask (ver s)) <? new_len) with false
+      by (symmetry; apply N.ltb_ge; exact Hbounds).
+    rewrite (bind_exec _ _ _ _ _ (eq_refl : ret tt s = (s, Ok tt))).
     match goal with |- bind ?m _ s = _ => assert (E : m s = (s1, Ok (d_start e))) end.
     { destruct (d_start e =? END_OF_CHAIN) eqn:E2; [apply N.eqb_eq in E2; contradiction|].
       destruct (d_len e <? MINI_STREAM_CUTOFF) eqn:E3; [lia|].
@@ -471,6 +476,7 @@ Qed.
 Theorem write_data_big_inplace : forall s id V ids off buf,
   big_content s id V -> stream_ids s id ids ->
   off + lenN buf <= lenN V -> StoreWf s ->
+  lenN V <= N.min (MAX_REGULAR_SECTOR * slen s) (stream_len_mask (ver s)) ->
   exists s',
     write_data id off buf s = (s', Ok tt) /\
     big_content s' id (spliceN V off buf) /\
@@ -479,13 +485,13 @@ Theorem write_data_big_inplace : forall s id V ids off buf,
     (forall id' V' ids', id' <> id -> big_content s id' V' -> stream_ids s id' ids' ->
        disjoint ids ids' -> big_content s' id' V' /\ stream_ids s' id' ids').
 Proof.
-  intros s id V ids off buf HB Hsi Hin Hwf.
+  intros s id V ids off buf HB Hsi Hin Hwf Hbounds.
   pose proof HB as (e & ids' & He & Ht & Hcut & Hc & Hg & Hle & HV).
   pose proof Hsi as (e0 & He0 & _ & Hc0).
   rewrite He in He0. injection He0 as <-. rewrite Hc in Hc0. injection Hc0 as ->.
   pose proof (big_content_len _ _ _ _ HB He) as HlV.
   destruct (write_data_big_no_alloc s id V ids off buf HB Hsi Hwf)
-    as (s' & H1 & H2 & H3 & H4 & _ & H6); [blia | blia |].
+    as (s' & H1 & H2 & H3 & H4 & _ & H6); [blia | blia | blia |].
   exists s'. csplit; try assumption. rewrite lenN_spliceN. blia.
 Qed.
 
@@ -495,6 +501,7 @@ Qed.
 Theorem write_data_big_grow_within_chain : forall s id V ids off buf,
   big_content s id V -> stream_ids s id ids -> StoreWf s ->
   off <= lenN V -> lenN V < off + lenN buf -> off + lenN buf <= slen s * lenN ids ->
+  off + lenN buf <= N.min (MAX_REGULAR_SECTOR * slen s) (stream_len_mask (ver s)) ->
   exists s',
     write_data id off buf s = (s', Ok tt) /\
     big_content s' id (spliceN V off buf) /\
@@ -504,8 +511,8 @@ Theorem write_data_big_grow_within_chain : forall s id V ids off buf,
     (forall id' V' ids', id' <> id -> big_content s id' V' -> stream_ids s id' ids' ->
        disjoint ids ids' -> big_content s' id' V' /\ stream_ids s' id' ids').
 Proof.
-  intros s id V ids off buf HB Hsi Hwf Hoff Hgrow Hfit.
-  destruct (write_data_big_no_alloc s id V ids off buf HB Hsi Hwf Hoff Hfit)
+  intros s id V ids off buf HB Hsi Hwf Hoff Hgrow Hfit Hbounds.
+  destruct (write_data_big_no_alloc s id V ids off buf HB Hsi Hwf Hoff Hfit ltac:(lia))
     as (s' & H1 & H2 & H3 & H4 & H5 & H6).
   destruct H5 as (B1 & _ & _ & _ & B5 & B6 & _).
   exists s'. csplit; try assumption. rewrite lenN_spliceN. blia.
@@ -572,6 +579,7 @@ Lemma resize_big_same_count : forall s id V ids new_len,
   MINI_STREAM_CUTOFF <= new_len ->
   new_len <= slen s * lenN ids -> slen s * lenN ids < new_len + slen s ->
   new_len <= MAX_REGULAR_SECTOR * slen s ->
+  new_len <= stream_len_mask (ver s) ->
   exists s',
     resize id new_len s = (s', Ok tt) /\
     big_content s' id (takeN new_len V ++ repeatN 0 (new_len - lenN V)) /\
@@ -579,7 +587,7 @@ Lemma resize_big_same_count : forall s id V ids new_len,
     (forall id' V' ids', id' <> id -> big_content s id' V' -> stream_ids s id' ids' ->
        disjoint ids ids' -> big_content s' id' V' /\ stream_ids s' id' ids').
 Proof.
-  intros s id V ids new_len HB (e0 & He0 & _ & Hc0) Hwf Hnl Hfit Htight Hmax.
+  intros s id V ids new_len HB (e0 & He0 & _ & Hc0) Hwf Hnl Hfit Htight Hmax Hmask.
   pose proof HB as (e & ids' & He & Ht & Hcut & Hc & Hg & Hle & HV).
   rewrite He in He0. injection He0 as <-. rewrite Hc in Hc0. injection Hc0 as ->.
   pose proof (big_content_len _ _ _ _ HB He) as HlV.
@@ -598,6 +606,8 @@ Proof.
     cbv beta iota zeta.
     rewrite (bind_exec _ _ _ _ _ (eq_refl : get s = (s, Ok s))). cbv beta iota zeta.
     replace (MAX_REGULAR_SECTOR * slen s <? new_len) with false by (symmetry; apply N.ltb_ge; exact Hmax).
+    rewrite (bind_exec _ _ _ _ _ (eq_refl : ret tt s = (s, Ok tt))).
+    rewrite (mask_check_false s new_len Hmask).
     rewrite (bind_exec _ _ _ _ _ (eq_refl : ret tt s = (s, Ok tt))).
     match goal with |- bind ?m _ s = _ => assert (E : m s = (s1, Ok (d_start e))) end.
     { destruct (d_start e =? END_OF_CHAIN) eqn:E2; [apply N.eqb_eq in E2; contradiction|].
@@ -641,6 +651,7 @@ Theorem resize_big_shrink_same_count : forall s id V ids new_len,
   MINI_STREAM_CUTOFF <= new_len -> new_len < lenN V ->
   slen s * lenN ids < new_len + slen s ->
   new_len <= MAX_REGULAR_SECTOR * slen s ->
+  new_len <= stream_len_mask (ver s) ->
   exists s',
     resize id new_len s = (s', Ok tt) /\
     big_content s' id (takeN new_len V) /\
@@ -648,12 +659,12 @@ Theorem resize_big_shrink_same_count : forall s id V ids new_len,
     (forall id' V' ids', id' <> id -> big_content s id' V' -> stream_ids s id' ids' ->
        disjoint ids ids' -> big_content s' id' V' /\ stream_ids s' id' ids').
 Proof.
-  intros s id V ids new_len HB Hsi Hwf Hnl Hlt Htight Hmax.
+  intros s id V ids new_len HB Hsi Hwf Hnl Hlt Htight Hmax Hmask.
   pose proof HB as (e & ids' & He & Ht & Hcut & Hc & Hg & Hle & HV).
   pose proof Hsi as (e0 & He0 & _ & Hc0).
   rewrite He in He0. injection He0 as <-. rewrite Hc in Hc0. injection Hc0 as ->.
   pose proof (big_content_len _ _ _ _ HB He) as HlV.
-  destruct (resize_big_same_count s id V ids new_len HB Hsi Hwf Hnl ltac:(blia) Htight Hmax)
+  destruct (resize_big_same_count s id V ids new_len HB Hsi Hwf Hnl ltac:(blia) Htight Hmax Hmask)
     as (s' & H1 & H2 & H3).
   exists s'. split; [exact H1|]. split; [|exact H3].
   replace (new_len - lenN V) with 0 in H2 by blia.
@@ -667,6 +678,7 @@ Theorem resize_big_grow_zero_within_chain : forall s id V ids new_len,
   lenN V < new_len -> new_len <= slen s * lenN ids ->
   slen s * lenN ids < new_len + slen s ->
   new_len <= MAX_REGULAR_SECTOR * slen s ->
+  new_len <= stream_len_mask (ver s) ->
   exists s',
     resize id new_len s = (s', Ok tt) /\
     big_content s' id (V ++ repeatN 0 (new_len - lenN V)) /\
@@ -674,10 +686,10 @@ Theorem resize_big_grow_zero_within_chain : forall s id V ids new_len,
     (forall id' V' ids', id' <> id -> big_content s id' V' -> stream_ids s id' ids' ->
        disjoint ids ids' -> big_content s' id' V' /\ stream_ids s' id' ids').
 Proof.
-  intros s id V ids new_len HB Hsi Hwf Hgt Hfit Htight Hmax.
+  intros s id V ids new_len HB Hsi Hwf Hgt Hfit Htight Hmax Hmask.
   pose proof HB as (e & ids' & He & Ht & Hcut & Hc & Hg & Hle & HV).
   pose proof (big_content_len _ _ _ _ HB He) as HlV.
-  destruct (resize_big_same_count s id V ids new_len HB Hsi Hwf ltac:(blia) Hfit Htight Hmax)
+  destruct (resize_big_same_count s id V ids new_len HB Hsi Hwf ltac:(blia) Hfit Htight Hmax Hmask)
     as (s' & H1 & H2 & H3).
   exists s'. split; [exact H1|]. split; [|exact H3].
   rewrite takeN_all in H2 by blia. exact H2.
@@ -690,12 +702,13 @@ Corollary resize_big_grow_zero_tight : forall s id V ids new_len,
   slen s * lenN ids < lenN V + slen s ->
   lenN V < new_len -> new_len <= slen s * lenN ids ->
   new_len <= MAX_REGULAR_SECTOR * slen s ->
+  new_len <= stream_len_mask (ver s) ->
   exists s',
     resize id new_len s = (s', Ok tt) /\
     big_content s' id (V ++ repeatN 0 (new_len - lenN V)).
 Proof.
-  intros s id V ids new_len HB Hsi Hwf Htight Hgt Hfit Hmax.
-  destruct (resize_big_grow_zero_within_chain s id V ids new_len HB Hsi Hwf Hgt Hfit ltac:(blia) Hmax)
+  intros s id V ids new_len HB Hsi Hwf Htight Hgt Hfit Hmax Hmask.
+  destruct (resize_big_grow_zero_within_chain s id V ids new_len HB Hsi Hwf Hgt Hfit ltac:(blia) Hmax Hmask)
     as (s' & H1 & H2 & _).
   exists s'. split; assumption.
 Qed.
@@ -708,6 +721,7 @@ Theorem shrink_then_grow_zero : forall s id V ids m,
   MINI_STREAM_CUTOFF <= m -> m < lenN V ->
   slen s * lenN ids < m + slen s ->
   lenN V <= MAX_REGULAR_SECTOR * slen s ->
+  lenN V <= stream_len_mask (ver s) ->
   exists s1 s2,
     resize id m s = (s1, Ok tt) /\
     resize id (lenN V) s1 = (s2, Ok tt) /\
@@ -715,18 +729,19 @@ Theorem shrink_then_grow_zero : forall s id V ids m,
     big_content s2 id (takeN m V ++ repeatN 0 (lenN V - m)) /\
     stream_ids s2 id ids /\ free s2 = free s /\ StoreWf s2.
 Proof.
-  intros s id V ids m HB Hsi Hwf Hm Hlt Htight Hmax.
+  intros s id V ids m HB Hsi Hwf Hm Hlt Htight Hmax Hmask.
   pose proof HB as (e & ids' & He & Ht & Hcut & Hc & Hg & Hle & HV).
   pose proof Hsi as (e0 & He0 & _ & Hc0).
   rewrite He in He0. injection He0 as <-. rewrite Hc in Hc0. injection Hc0 as ->.
   pose proof (big_content_len _ _ _ _ HB He) as HlV.
-  destruct (resize_big_shrink_same_count s id V ids m HB Hsi Hwf Hm Hlt Htight ltac:(lia))
+  destruct (resize_big_shrink_same_count s id V ids m HB Hsi Hwf Hm Hlt Htight ltac:(lia) ltac:(lia))
     as (s1 & R1 & HB1 & Hsi1 & Hwf1 & Hsh1 & _).
   pose proof (same_shape_slen _ _ Hsh1) as Hsl1.
   assert (Hl1 : lenN (takeN m V) = m) by (rewrite lenN_takeN; blia).
   destruct (resize_big_grow_zero_within_chain s1 id (takeN m V) ids (lenN V) HB1 Hsi1 Hwf1)
     as (s2 & R2 & HB2 & Hsi2 & Hwf2 & Hsh2 & _).
   { blia. } { rewrite Hsl1. blia. } { rewrite Hsl1. blia. } { rewrite Hsl1. exact Hmax. }
+  { destruct Hsh1 as (_ & Fv & _). rewrite Fv. exact Hmask. }
   rewrite Hl1 in HB2.
   destruct Hsh1 as (_ & _ & _ & _ & _ & F1 & _). destruct Hsh2 as (_ & _ & _ & _ & _ & F2 & _).
   exists s1, s2. csplit; try assumption. congruence.
@@ -1188,6 +1203,7 @@ Lemma resize_big_release : forall s id V ids new_len,
   MINI_STREAM_CUTOFF <= new_len ->
   (slen s + new_len - 1) / slen s < lenN ids ->
   new_len <= MAX_REGULAR_SECTOR * slen s ->
+  new_len <= stream_len_mask (ver s) ->
   exists s',
     resize id new_len s = (s', Ok tt) /\
     big_content s' id (takeN new_len V ++ repeatN 0 (new_len - lenN V)) /\
@@ -1198,7 +1214,7 @@ Lemma resize_big_release : forall s id V ids new_len,
        disjoint ids ids' -> big_content s' id' V' /\ stream_ids s' id' ids') /\
     fat_frame s s' id ids new_len.
 Proof.
-  intros s id V ids new_len HB Hsi Hwf Hnl Hlt Hmax.
+  intros s id V ids new_len HB Hsi Hwf Hnl Hlt Hmax Hmask.
   pose proof (slen_pos s) as Hsp.
   assert (Hnl0 : 0 < new_len) by (rewrite CUTOFF_val in Hnl; lia).
   destruct (ceil_props (slen s) new_len Hsp Hnl0) as [Hc1 Hc2].
@@ -1271,6 +1287,8 @@ Proof.
     rewrite (bind_exec _ _ _ _ _ (eq_refl : get s = (s, Ok s))). cbv beta iota zeta.
     replace (MAX_REGULAR_SECTOR * slen s <? new_len) with false by (symmetry; apply N.ltb_ge; exact Hmax).
     rewrite (bind_exec _ _ _ _ _ (eq_refl : ret tt s = (s, Ok tt))).
+    rewrite (mask_check_false s new_len Hmask).
+    rewrite (bind_exec _ _ _ _ _ (eq_refl : ret tt s = (s, Ok tt))).
     match goal with |- bind ?m _ s = _ => assert (E : m s = (s2, Ok (d_start e))) end.
     { destruct (d_start e =? END_OF_CHAIN) eqn:E2; [apply N.eqb_eq in E2; contradiction|].
       destruct (d_len e <? MINI_STREAM_CUTOFF) eqn:E3; [lia|].
@@ -1327,6 +1345,7 @@ Theorem resize_big_no_alloc : forall s id V ids new_len,
   big_content s id V -> stream_ids s id ids -> StoreWf s ->
   MINI_STREAM_CUTOFF <= new_len -> new_len <= slen s * lenN ids ->
   new_len <= MAX_REGULAR_SECTOR * slen s ->
+  new_len <= stream_len_mask (ver s) ->
   exists s',
     resize id new_len s = (s', Ok tt) /\
     big_content s' id (takeN new_len V ++ repeatN 0 (new_len - lenN V)) /\
@@ -1336,7 +1355,7 @@ Theorem resize_big_no_alloc : forall s id V ids new_len,
     (forall id' V' ids', id' <> id -> big_content s id' V' -> stream_ids s id' ids' ->
        disjoint ids ids' -> big_content s' id' V' /\ stream_ids s' id' ids').
 Proof.
-  intros s id V ids new_len HB Hsi Hwf Hnl Hfit Hmax.
+  intros s id V ids new_len HB Hsi Hwf Hnl Hfit Hmax Hmask.
   pose proof (slen_pos s) as Hsp.
   assert (Hnl0 : 0 < new_len) by (rewrite CUTOFF_val in Hnl; lia).
   destruct (ceil_props (slen s) new_len Hsp Hnl0) as [Hc1 Hc2].
@@ -1344,12 +1363,12 @@ Proof.
   assert (Hn'le : n' <= lenN ids) by nia.
   destruct (N.eq_dec n' (lenN ids)) as [Heq|Hneq].
   { (* same number of sectors *)
-    destruct (resize_big_same_count s id V ids new_len HB Hsi Hwf Hnl Hfit ltac:(nia) Hmax)
+    destruct (resize_big_same_count s id V ids new_len HB Hsi Hwf Hnl Hfit ltac:(nia) Hmax Hmask)
       as (s' & R & HB' & Hsi' & Hwf' & Hsh' & Hoth).
     exists s'. rewrite Heq, (takeN_all _ ids), (dropN_all _ ids), app_nil_r by lia.
     destruct Hsh' as (A1 & _ & _ & _ & _ & A6 & _).
     csplit; try assumption. apply (sw_alloc _ Hwf'). }
-  destruct (resize_big_release s id V ids new_len HB Hsi Hwf Hnl ltac:(fold n'; lia) Hmax)
+  destruct (resize_big_release s id V ids new_len HB Hsi Hwf Hnl ltac:(fold n'; lia) Hmax Hmask)
     as (s' & H1 & H2 & H3 & H4 & H5 & H6 & H7 & _).
   exists s'. fold n' in H3, H4. csplit; assumption.
 Qed.
@@ -1359,6 +1378,7 @@ Theorem resize_big_shrink : forall s id V ids new_len,
   big_content s id V -> stream_ids s id ids -> StoreWf s ->
   MINI_STREAM_CUTOFF <= new_len -> new_len < lenN V ->
   new_len <= MAX_REGULAR_SECTOR * slen s ->
+  new_len <= stream_len_mask (ver s) ->
   exists s',
     resize id new_len s = (s', Ok tt) /\
     big_content s' id (takeN new_len V) /\
@@ -1368,12 +1388,12 @@ Theorem resize_big_shrink : forall s id V ids new_len,
     (forall id' V' ids', id' <> id -> big_content s id' V' -> stream_ids s id' ids' ->
        disjoint ids ids' -> big_content s' id' V' /\ stream_ids s' id' ids').
 Proof.
-  intros s id V ids new_len HB Hsi Hwf Hnl Hlt Hmax.
+  intros s id V ids new_len HB Hsi Hwf Hnl Hlt Hmax Hmask.
   pose proof HB as (e & ids' & He & Ht & Hcut & Hc & Hg & Hle & HV).
   pose proof Hsi as (e0 & He0 & _ & Hc0).
   rewrite He in He0. injection He0 as <-. rewrite Hc in Hc0. injection Hc0 as ->.
   pose proof (big_content_len _ _ _ _ HB He) as HlV.
-  destruct (resize_big_no_alloc s id V ids new_len HB Hsi Hwf Hnl ltac:(blia) Hmax)
+  destruct (resize_big_no_alloc s id V ids new_len HB Hsi Hwf Hnl ltac:(blia) Hmax Hmask)
     as (s' & H1 & H2 & H3).
   exists s'. split; [exact H1|]. split; [|exact H3].
   replace (new_len - lenN V) with 0 in H2 by blia.
@@ -1628,6 +1648,7 @@ Theorem resize_big_grow_zero_new_sectors : forall s id V ids new_len base nw,
   free s = base ++ rev nw ->
   lenN ids + lenN nw = (slen s + new_len - 1) / slen s ->
   new_len <= MAX_REGULAR_SECTOR * slen s ->
+  new_len <= stream_len_mask (ver s) ->
   exists s',
     resize id new_len s = (s', Ok tt) /\
     big_content s' id (V ++ repeatN 0 (new_len - lenN V)) /\
@@ -1636,7 +1657,7 @@ Theorem resize_big_grow_zero_new_sectors : forall s id V ids new_len base nw,
     (forall id' V' ids', id' <> id -> big_content s id' V' -> stream_ids s id' ids' ->
        disjoint ids ids' -> big_content s' id' V' /\ stream_ids s' id' ids').
 Proof.
-  intros s id V ids new_len base nw HB Hsi Hwf Hgt Hfree Hcount Hmax.
+  intros s id V ids new_len base nw HB Hsi Hwf Hgt Hfree Hcount Hmax Hmask.
   pose proof (slen_pos s) as Hsp.
   pose proof Hsi as (e0 & He0 & _ & Hc0).
   pose proof HB as (e & ids' & He & Ht & Hcut & Hc & Hg & Hle & HV).
@@ -1732,6 +1753,8 @@ Proof.
     cbv beta iota zeta.
     rewrite (bind_exec _ _ _ _ _ (eq_refl : get s = (s, Ok s))). cbv beta iota zeta.
     replace (MAX_REGULAR_SECTOR * slen s <? new_len) with false by (symmetry; apply N.ltb_ge; exact Hmax).
+    rewrite (bind_exec _ _ _ _ _ (eq_refl : ret tt s = (s, Ok tt))).
+    rewrite (mask_check_false s new_len Hmask).
     rewrite (bind_exec _ _ _ _ _ (eq_refl : ret tt s = (s, Ok tt))).
     match goal with |- bind ?m _ s = _ => assert (E : m s = (s2, Ok (d_start e))) end.
     { destruct (d_start e =? END_OF_CHAIN) eqn:E2; [apply N.eqb_eq in E2; contradiction|].
@@ -2003,6 +2026,7 @@ Theorem resize_big_grow_zero_append : forall s id V ids new_len k,
   nsect s + N.of_nat k <= MAX_REGULAR_SECTOR + 1 ->
   (forall j, j < N.of_nat k -> (nsect s + j) mod fat_per_sector s <> 0) ->
   new_len <= MAX_REGULAR_SECTOR * slen s ->
+  new_len <= stream_len_mask (ver s) ->
   exists s',
     resize id new_len s = (s', Ok tt) /\
     big_content s' id (V ++ repeatN 0 (new_len - lenN V)) /\
@@ -2011,7 +2035,7 @@ Theorem resize_big_grow_zero_append : forall s id V ids new_len k,
     (forall id' V' ids', id' <> id -> big_content s id' V' -> stream_ids s id' ids' ->
        disjoint ids ids' -> big_content s' id' V' /\ stream_ids s' id' ids').
 Proof.
-  intros s id V ids new_len k HB Hsi Hwf Hfree Hlen Hdlt Hgt Hcount Hbound Hmod Hmax.
+  intros s id V ids new_len k HB Hsi Hwf Hfree Hlen Hdlt Hgt Hcount Hbound Hmod Hmax Hmask.
   pose proof (slen_pos s) as Hsp.
   pose proof Hsi as (e0 & He0 & _ & Hc0).
   pose proof HB as (e & ids' & He & Ht & Hcut & Hc & Hg & Hle & HV).
@@ -2101,6 +2125,8 @@ Proof.
     rewrite (bind_exec _ _ _ _ _ (eq_refl : get s = (s, Ok s))). cbv beta iota zeta.
     replace (MAX_REGULAR_SECTOR * slen s <? new_len) with false by (symmetry; apply N.ltb_ge; exact Hmax).
     rewrite (bind_exec _ _ _ _ _ (eq_refl : ret tt s = (s, Ok tt))).
+    rewrite (mask_check_false s new_len Hmask).
+    rewrite (bind_exec _ _ _ _ _ (eq_refl : ret tt s = (s, Ok tt))).
     match goal with |- bind ?m _ s = _ => assert (E : m s = (s2, Ok (d_start e))) end.
     { destruct (d_start e =? END_OF_CHAIN) eqn:E2; [apply N.eqb_eq in E2; contradiction|].
       destruct (d_len e <? MINI_STREAM_CUTOFF) eqn:E3; [lia|].
@@ -2167,15 +2193,16 @@ Corollary resize_big_grow_zero_append_FatInv : forall s id V ids new_len k,
   nsect s + N.of_nat k <= MAX_REGULAR_SECTOR + 1 ->
   (forall j, j < N.of_nat k -> (nsect s + j) mod fat_per_sector s <> 0) ->
   new_len <= MAX_REGULAR_SECTOR * slen s ->
+  new_len <= stream_len_mask (ver s) ->
   exists s',
     resize id new_len s = (s', Ok tt) /\
     big_content s' id (V ++ repeatN 0 (new_len - lenN V)) /\
     stream_ids s' id (ids ++ seqN (nsect s) k) /\
     free s' = [] /\ nsect s' = nsect s + N.of_nat k.
 Proof.
-  intros s id V ids new_len k HB Hsi Hwf Hfree Hinv Hgt Hcount Hbound Hmod Hmax.
+  intros s id V ids new_len k HB Hsi Hwf Hfree Hinv Hgt Hcount Hbound Hmod Hmax Hmask.
   destruct (resize_big_grow_zero_append s id V ids new_len k HB Hsi Hwf Hfree
-              (Co.fi_len s Hinv) (Co.co_lt s (Co.fi_core s Hinv)) Hgt Hcount Hbound Hmod Hmax)
+              (Co.fi_len s Hinv) (Co.co_lt s (Co.fi_core s Hinv)) Hgt Hcount Hbound Hmod Hmax Hmask)
     as (s' & H1 & H2 & H3 & H4 & H5 & _).
   exists s'. csplit; assumption.
 Qed.
@@ -2358,6 +2385,7 @@ Theorem shrink_then_grow_zero_general : forall s id V ids m,
   slen s * lenN ids < lenN V + slen s ->
   MINI_STREAM_CUTOFF <= m -> m < lenN V ->
   lenN V <= MAX_REGULAR_SECTOR * slen s ->
+  lenN V <= stream_len_mask (ver s) ->
   exists s1 s2,
     resize id m s = (s1, Ok tt) /\
     resize id (lenN V) s1 = (s2, Ok tt) /\
@@ -2367,7 +2395,7 @@ Theorem shrink_then_grow_zero_general : forall s id V ids m,
                       ++ rev (dropN ((slen s + m - 1) / slen s) ids)) /\
     free s2 = free s.
 Proof.
-  intros s id V ids m HB Hsi Hwf Hok Htight Hm Hlt Hmax.
+  intros s id V ids m HB Hsi Hwf Hok Htight Hm Hlt Hmax Hmask.
   pose proof (slen_pos s) as Hsp.
   pose proof HB as (e & ids' & He & Ht & Hcut & Hc & Hg & Hle & HV).
   pose proof Hsi as (e0 & He0 & _ & Hc0).
@@ -2378,14 +2406,14 @@ Proof.
   set (n' := (slen s + m - 1) / slen s) in *.
   assert (Hn'le : n' <= lenN ids) by (unfold byte in *; nia).
   destruct (N.eq_dec n' (lenN ids)) as [Heq|Hneq].
-  { destruct (shrink_then_grow_zero s id V ids m HB Hsi Hwf Hm Hlt ltac:(unfold byte in *; nia) Hmax)
+  { destruct (shrink_then_grow_zero s id V ids m HB Hsi Hwf Hm Hlt ltac:(unfold byte in *; nia) Hmax Hmask)
       as (s1 & s2 & R1 & R2 & B1 & B2 & S2 & F2 & _).
     exists s1, s2. rewrite Heq, (takeN_all _ ids), (dropN_all _ ids) by lia.
     cbn [rev]. rewrite app_nil_r. csplit; assumption. }
   assert (Hn'lt : n' < lenN ids) by lia.
   assert (Hbig : big_ids s id ids) by (exists e; csplit; assumption).
   pose proof (path_nodup _ _ _ (WalkProofs.chain_ids_path _ _ _ Hc)) as Hnd.
-  destruct (resize_big_release s id V ids m HB Hsi Hwf Hm Hn'lt ltac:(lia))
+  destruct (resize_big_release s id V ids m HB Hsi Hwf Hm Hn'lt ltac:(lia) ltac:(lia))
     as (s1 & R1 & HB1 & Hsi1 & Hf1 & Hn1 & Wa1 & _ & Hff).
   fold n' in Hsi1, Hf1.
   replace (m - lenN V) with 0 in HB1 by blia.
@@ -2414,6 +2442,7 @@ Proof.
     replace (n' + (lenN ids - n')) with (lenN ids) by lia.
     apply (N.div_unique _ _ _ (slen s + lenN V - 1 - slen s * lenN ids)); blia. }
   { rewrite Hsl1. exact Hmax. }
+  { destruct Hff as (Fv & _). rewrite Fv. exact Hmask. }
   rewrite Hl1 in HB2.
   exists s1, s2. csplit; assumption.
 Qed.
@@ -2606,6 +2635,7 @@ Module StoreExamples.
     - unfold Vx. rewrite lenN_repeatN. lia.
     - vm_compute. reflexivity.
     - unfold Vx. rewrite lenN_repeatN. vm_compute. discriminate.
+    - unfold Vx. rewrite lenN_repeatN. vm_compute. discriminate.
     - unfold Vx in R2, HB2. rewrite lenN_repeatN in R2, HB2.
       exists s1, s2. split; [exact R1|]. split; [exact R2 | exact HB2].
   Qed.
@@ -2641,6 +2671,7 @@ Module StoreExamples.
     - rewrite CUTOFF_val. lia.
     - unfold Vx. rewrite lenN_repeatN. lia.
     - vm_compute. discriminate.
+    - vm_compute. discriminate.
     - exists s'. split; [exact R|]. split; [exact HB'|]. split; [exact Hsi' | exact Hf].
   Qed.
 
@@ -2660,6 +2691,7 @@ Module StoreExamples.
     - vm_compute. reflexivity.
     - exact Hf.
     - vm_compute. reflexivity.
+    - vm_compute. discriminate.
     - vm_compute. discriminate.
     - replace (lenN (takeN 4096 Vx)) with 4096 in HB'
         by (rewrite lenN_takeN; unfold Vx; rewrite lenN_repeatN; reflexivity).
@@ -2686,6 +2718,7 @@ Module StoreExamples.
     - rewrite En, MAXREG_val. lia.
     - intros j Hj. rewrite En, Ef. change (N.of_nat 2) with 2 in Hj. lia.
     - vm_compute. discriminate.
+    - vm_compute. discriminate.
     - unfold Vx in HB'. rewrite lenN_repeatN in HB'. rewrite En in Hsi', Hn'.
       exists s'. split; [exact R|]. split; [exact HB'|]. split; [exact Hsi' | exact Hn'].
   Qed.
@@ -2706,6 +2739,7 @@ Module StoreExamples.
     - unfold Vx. rewrite lenN_repeatN. vm_compute. reflexivity.
     - rewrite CUTOFF_val. lia.
     - unfold Vx. rewrite lenN_repeatN. lia.
+    - unfold Vx. rewrite lenN_repeatN. vm_compute. discriminate.
     - unfold Vx. rewrite lenN_repeatN. vm_compute. discriminate.
     - unfold Vx in R2, HB2. rewrite lenN_repeatN in R2, HB2.
       replace ((slen sx + 4096 - 1) / slen sx) with 8 in Hsi2 by (vm_compute; reflexivity).
